@@ -247,7 +247,42 @@ func genScenario(p Profile, rs uint64, tier string) (*Scenario, *ExploreCfg) {
 		// the replication world does not go through the ledger store's data methods
 		sc.Knobs.RealSQL = false
 	}
+	deepen(sc, ex, rs, tier)
 	return sc, ex
+}
+
+// clockJumpOK: properties whose oracles do not assume that the database clock is monotone.
+var clockJumpOK = map[string]bool{"C01": true, "C03": true, "C06": true, "C07": true, "C08": true, "C09": true, "C13": true, "C14": true, "C16": true,
+	"C17": true, "C18": true, "C19": true, "C25": true, "C31": true, "C32": true}
+
+// deepen: the thorough tier explores more per run than the quick tier - requests that stall for a while
+// (any profile but the replication world), more faults per run, database clock jumps (forward and backward,
+// where the oracle does not assume a monotone clock). Decided from the run seed alone; VERIF_DEEP=1 applies
+// it to every run of any tier (used to test the deepening itself).
+func deepen(sc *Scenario, ex *ExploreCfg, rs uint64, tier string) {
+	if ex == nil || sc.Worker != nil {
+		return
+	}
+	force := os.Getenv("VERIF_DEEP") != ""
+	if tier != "thorough" && !force {
+		return
+	}
+	h := RunSeed(0x74686f72, rs)
+	if (h%2 == 0 || force) && ex.StallP == 0 {
+		ex.StallP = 0.03
+	}
+	if (h%3 == 0 || force) && len(ex.Kinds) > 0 && ex.FaultP > 0 {
+		ex.MaxFaults += 2
+	}
+	if clockJumpOK[sc.Property] && (h%4 == 0 || force) {
+		ex.Kinds = append(ex.Kinds, FClockJump)
+		if ex.FaultP == 0 {
+			ex.FaultP = 0.02
+		}
+		if ex.MaxFaults < 2 {
+			ex.MaxFaults = 2
+		}
+	}
 }
 
 func TestSim(t *testing.T) {
